@@ -735,6 +735,14 @@ var stdExternals = map[string]externalFn{
 
 	"unicode.Is": extUnicodeIs,
 
+	// vals.ScanToGoOpts: the numeric/rune cases run the real code; the generic
+	// case (plain assignment decided with reflect.Type.AssignableTo) is done
+	// with go/types on the static types.
+	"src.elv.sh/pkg/eval/vals.ScanToGoOpts": extScanToGo,
+	// vals.typeOf reads the type-descriptor word of an interface (unsafe); any
+	// injective numbering of dynamic types is an equivalent implementation.
+	"src.elv.sh/pkg/eval/vals.typeOf": extValsTypeOf,
+
 	"sort.Slice":       func(fr *frame, args []value) value { return sortSlice(fr, args, false) },
 	"sort.SliceStable": func(fr *frame, args []value) value { return sortSlice(fr, args, true) },
 
@@ -876,4 +884,80 @@ func sortSlice(fr *frame, args []value, stable bool) value {
 	fn := fr.i.lookupFunc("sort", "pdqsort_func")
 	callSSA(fr.i, fr, 0, fn, []value{ls, 0, n, mbits.Len(uint(n))}, nil)
 	return nil
+}
+
+func extScanToGo(fr *frame, args []value) value {
+	src, _ := args[0].(iface)
+	ptr, ok := args[1].(iface)
+	if !ok || ptr.t == nil {
+		panic(pathEnd{stUnsupported, "ScanToGo with nil pointer"})
+	}
+	pt, ok := ptr.t.Underlying().(*types.Pointer)
+	if !ok {
+		panic(pathEnd{stUnsupported, "ScanToGo destination is not a pointer"})
+	}
+	elem := pt.Elem()
+	real := func() value {
+		fn := fr.i.lookupFunc("src.elv.sh/pkg/eval/vals", "ScanToGoOpts")
+		fr.i.bypass = fn
+		defer func() { fr.i.bypass = nil }()
+		return callSSA(fr.i, fr, 0, fn, args, nil)
+	}
+	if b, isBasic := elem.Underlying().(*types.Basic); isBasic {
+		switch b.Kind() {
+		case types.Int, types.Float64, types.Int32:
+			return real()
+		}
+	}
+	if n, isNamed := elem.(*types.Named); isNamed && n.Obj().Name() == "Num" {
+		return real()
+	}
+	dst := ptr.v.(*value)
+	if dst == nil {
+		rtPanic(fr, "invalid memory address or nil pointer dereference")
+	}
+	_, dstIsIface := elem.Underlying().(*types.Interface)
+	switch {
+	case src.t == nil:
+		switch elem.Underlying().(type) {
+		case *types.Interface, *types.Pointer, *types.Slice, *types.Map, *types.Chan, *types.Signature:
+			*dst = zero(elem)
+			return iface{}
+		}
+	case types.AssignableTo(src.t, elem):
+		if dstIsIface {
+			*dst = src
+		} else {
+			store(elem, dst, src.v)
+		}
+		return iface{}
+	}
+	return fr.i.mkError("wrong type: need " + elem.String())
+}
+
+func extValsTypeOf(fr *frame, args []value) value {
+	x, _ := args[0].(iface)
+	id := func(t types.Type) value {
+		if t == nil {
+			return uintptr(0)
+		}
+		h := uint64(14695981039346656037)
+		for _, c := range []byte(t.String()) {
+			h = (h ^ uint64(c)) * 1099511628211
+		}
+		return uintptr(h>>16 | 1)
+	}
+	if x.t != nil {
+		switch x.t.String() {
+		case "int", "float64", "*math/big.Int", "*math/big.Rat":
+			return id(types.Typ[types.Int])
+		}
+		if _, isStruct := x.t.Underlying().(*types.Struct); isStruct {
+			fn := fr.i.lookupFunc("src.elv.sh/pkg/eval/vals", "IsFieldMap")
+			if callSSA(fr.i, fr, 0, fn, []value{x}, nil) == true {
+				return id(types.NewStruct(nil, nil))
+			}
+		}
+	}
+	return id(x.t)
 }
